@@ -31,7 +31,8 @@ class PickleKTable(KTable, InterpolatingOpacity):
 
         for f in files:
             splits = pathlib.Path(f).stem.split('.')
-            mol_name = sanitize_molecule_string(splits[0])
+            # Drop '_<linelist/resolution>' suffixes before sanitising
+            mol_name = sanitize_molecule_string(splits[0].split('_')[0])
 
             discovery.append((mol_name, [f, interp]))
 
